@@ -360,7 +360,7 @@ fn main() {
         run_case(&mut rec, d);
     }
     // seeded histories on every instantiated type
-    let (nhist, len) = if args.thorough() { (60, 200) } else { (12, 25) };
+    let (nhist, len) = if args.thorough() { (40, 200) } else { (12, 25) };
     for &bpp in &[1i64, 2, 4, 8, 16, 24, 32] {
         for ord in 0..2 {
             for &(w, h, x) in FB_SIZES.iter() {
